@@ -1,5 +1,5 @@
 SPECIFICATION Spec
-CONSTANTS Pfx = {"A", "B"} MaxHops = 1 MaxCid = 2 QCap = 100 MaxDepth = 4 LeakDetached = FALSE AnyState = FALSE MaxInst = 2 Lifecycle = FALSE UnloadClears = FALSE CandInit = {TRUE, FALSE} CloseWays = {"close", "closeR", "remove", "removeR", "removeNow", "removeD"} ReasonDecides = FALSE ReadyInit = TRUE
+CONSTANTS Pfx = {"A"} MaxHops = 1 MaxCid = 2 QCap = 100 MaxDepth = 4 LeakDetached = FALSE AnyState = FALSE MaxInst = 2 Lifecycle = FALSE UnloadClears = FALSE CandInit = {TRUE, FALSE} CloseWays = {"close", "closeR", "remove", "removeR", "removeNow", "removeD"} ReasonDecides = FALSE ReadyInit = TRUE Expiry = TRUE
 INVARIANT TypeOK
 INVARIANT NoRawForAnon
 INVARIANT TunnelledOnlyOverReadyRightCircuit
